@@ -130,7 +130,17 @@ func main() {
 		for c := *from; c < *from+*n; c++ {
 			g := &Gen{x: x, r: &rng{mixSeed(*seed, *prop, c)}, stats: rep.Stats, mid: map[string][]string{}}
 			g.do(fmt.Sprintf("case %d", c))
+			pendingKnown = nil
 			viol, known, nontrivial := st.run(g, c)
+			for _, k := range pendingKnown {
+				dup := false
+				for _, k2 := range known {
+					dup = dup || k2 == k
+				}
+				if !dup {
+					known = append(known, k)
+				}
+			}
 			first := lineNo + 1
 			emit(g.leanIn, g.goOut)
 			for _, l := range g.goOps {
